@@ -226,6 +226,16 @@ class Ctx:
         self.obligations = nq
         self.discharged = nq
         self.coq_sources = srcs
+        if self.thorough and not os.environ.get("VERIF_NO_COQCHK"):
+            # independent re-check of the compiled property file and everything it depends on
+            with Lock("coq"):
+                rc, cout = sh(["coqchk", "-silent", "-o", "-Q", "theories", "GV", "GV.Properties.%s" % pid], cwd=COQ, timeout=2400)
+            summ = cout[cout.find("CONTEXT SUMMARY"):] if "CONTEXT SUMMARY" in cout else cout[-1500:]
+            self.coverage["coqchk"] = {"rc": rc, "summary": " ".join(summ.split())[:1500]}
+            if rc != 0:
+                self.coq_log = cout
+                self.failed_at = "coqchk GV.Properties.%s" % pid
+                return False
         return True
 
     def coq_closure(self, prop_v):
